@@ -103,7 +103,7 @@ func (p *c05Probe) HandleEvent(ctx netty.EventContext, ev netty.Event) {
 func genC05(t *rapid.T) E1Case {
 	var c E1Case
 	genKind(t, &c, []string{"sync", "qblock", "qnonblock"})
-	if rapid.IntRange(0, 39).Draw(t, "stress") == 0 {
+	if rapid.IntRange(0, 39).Draw(t, "stress") == 17 { // a mid-range value: rapid favours the ends of a range
 		// windows without any yield point (inside the closer election) are only reachable with real parallelism
 		c.C05 = &C05Spec{Stress: rapid.IntRange(2, 8).Draw(t, "closers"), Rounds: 150}
 		return c
